@@ -8,10 +8,238 @@ namespace Osmium.Pbf
 open Osmium.Wire Osmium.Osm Osmium.PbfMsg
 open Osmium.PbfSpec (Choices)
 
+/-- the cases of `decode_relation`'s `switch` for different (tag, wire type) commute: 1 sets the id, 8 / 9 / 10 set the
+    three packed arrays, 2 / 3 / 4 set keys / vals / (info, user), and `decode_info` reads the info slot only -/
+theorem spec_rel_commutes (p : Params) (r : ROpts) : CommutesOn (relationStep p r) (fun _ => True) := by
+  intro s f g _ _ hk
+  obtain ⟨t1, w1, v1, p1⟩ := f
+  obtain ⟨t2, w2, v2, p2⟩ := g
+  simp only [key, ne_eq, Prod.mk.injEq, not_and] at hk
+  unfold relationStep metaStep
+  dsimp only
+  split <;> split <;> (try (simp_all; done)) <;> (try simp only [Option.bind_some])
+  all_goals (repeat' split)
+  all_goals (try (simp_all; done))
+  all_goals (first
+    | (rcases h : decodeInfo p s.info p2 with _ | x <;> simp_all <;> done)
+    | (rcases h : decodeInfo p s.info p1 with _ | x <;> simp_all <;> done))
+
+/-- the canonical field list of the spec's Relation message -/
+def spec_rel_fields (ch : Choices) (table : List Bytes) (hist : Bool) (m : Meta) (ms : List Member) : List Field :=
+  [PbfSpec.fInt 1 m.id] ++ PbfSpec.metaFields ch table hist m ++
+    PbfSpec.fPacked ch.omitDefaults 8 (ms.map fun x => PbfSpec.idx table x.role) ++
+    PbfSpec.fPacked ch.omitDefaults 9 ((PbfSpec.delta 0 (ms.map (·.ref))).map zigzag64) ++
+    PbfSpec.fPacked ch.omitDefaults 10 (ms.map fun x => x.type - 1)
+
+theorem spec_rel_msg_eq (ch : Choices) (table : List Bytes) (hist : Bool) (m : Meta) (ms : List Member) :
+    PbfSpec.relationMsg ch table hist m ms = PbfSpec.msg ch PbfSpec.kRelation (spec_rel_fields ch table hist m ms) := rfl
+
+theorem spec_rel_packed_mem (od : Bool) (tag : Nat) (vs : List Nat) (f : Field) (hf : f ∈ PbfSpec.fPacked od tag vs) :
+    f = fBytes tag (pack vs) := by
+  unfold PbfSpec.fPacked at hf
+  split at hf <;> simp only [List.mem_nil_iff, List.mem_singleton] at hf
+  subst hf; rfl
+
+/-- a length-delimited field with a small tag whose payload is shorter than 4 GiB is well-formed -/
+theorem spec_rel_ld_wf (f : Field) (hw : f.wt = .lengthDelimited) (ht : 0 < f.tag ∧ f.tag < 17) (hv : f.val = 0)
+    (hp : f.payload.length < 2 ^ 32) : f.WF := by
+  obtain ⟨tag, wt, val, payload⟩ := f
+  simp only at hw ht hv hp
+  subst hw hv
+  exact ⟨by dsimp only; omega, by simp only [Nat.reducePow]; omega, by dsimp only; omega, rfl, hp⟩
+
+theorem spec_rel_fields_wf (ch : Choices) (table : List Bytes) (hist : Bool) (m : Meta) (ms : List Member)
+    (hlen : (PbfSpec.relationMsg ch table hist m ms).length < 2 ^ 32) :
+    ∀ f ∈ spec_rel_fields ch table hist m ms, f.WF := by
+  intro f hf
+  have hf0 := hf
+  have ld : f.wt = .lengthDelimited → f.payload.length < 2 ^ 32 := fun hw => by
+    have hp := payload_le_msg ch PbfSpec.kRelation _ f hf0 hw
+    rw [← spec_rel_msg_eq] at hp
+    exact Nat.lt_of_le_of_lt hp hlen
+  unfold spec_rel_fields at hf
+  simp only [List.mem_append, List.mem_singleton] at hf
+  rcases hf with (((hf | hf) | hf) | hf) | hf
+  · subst hf
+    exact wf_varint 1 _ (by decide) (by decide) (u64_lt _)
+  · obtain ⟨hw, ht, hv⟩ := spec_metaFields_shape ch table hist m f hf
+    exact spec_rel_ld_wf f hw (by omega) hv (ld hw)
+  · have e := spec_rel_packed_mem _ _ _ f hf
+    exact spec_rel_ld_wf f (by rw [e]; rfl) (by rw [e]; simp [fBytes]) (by rw [e]; rfl) (ld (by rw [e]; rfl))
+  · have e := spec_rel_packed_mem _ _ _ f hf
+    exact spec_rel_ld_wf f (by rw [e]; rfl) (by rw [e]; simp [fBytes]) (by rw [e]; rfl) (ld (by rw [e]; rfl))
+  · have e := spec_rel_packed_mem _ _ _ f hf
+    exact spec_rel_ld_wf f (by rw [e]; rfl) (by rw [e]; simp [fBytes]) (by rw [e]; rfl) (ld (by rw [e]; rfl))
+
+/-! ### the three packed arrays -/
+
+theorem spec_rel_a (p : Params) (r : ROpts) (od : Bool) (vs : List Nat) (s : ObjAcc) (h : s.a = []) :
+    decodeMsg (relationStep p r) s (PbfSpec.fPacked od 8 vs) = some { s with a := pack vs } := by
+  unfold PbfSpec.fPacked
+  by_cases hc : (vs.isEmpty && od) = true
+  · simp only [hc, ↓reduceIte, spec_decodeMsg_nil]
+    have : vs.isEmpty = true := by simp at hc; simp [hc.1]
+    rw [spec_pack_nil_of_isEmpty vs this]
+    cases s; simp_all
+  · simp only [hc, Bool.false_eq_true, ↓reduceIte, spec_decodeMsg_single, spec_fBytes]
+    simp [relationStep, fBytes]
+
+theorem spec_rel_b (p : Params) (r : ROpts) (od : Bool) (vs : List Nat) (s : ObjAcc) (h : s.b = []) :
+    decodeMsg (relationStep p r) s (PbfSpec.fPacked od 9 vs) = some { s with b := pack vs } := by
+  unfold PbfSpec.fPacked
+  by_cases hc : (vs.isEmpty && od) = true
+  · simp only [hc, ↓reduceIte, spec_decodeMsg_nil]
+    have : vs.isEmpty = true := by simp at hc; simp [hc.1]
+    rw [spec_pack_nil_of_isEmpty vs this]
+    cases s; simp_all
+  · simp only [hc, Bool.false_eq_true, ↓reduceIte, spec_decodeMsg_single, spec_fBytes]
+    simp [relationStep, fBytes]
+
+theorem spec_rel_c (p : Params) (r : ROpts) (od : Bool) (vs : List Nat) (s : ObjAcc) (h : s.c = []) :
+    decodeMsg (relationStep p r) s (PbfSpec.fPacked od 10 vs) = some { s with c := pack vs } := by
+  unfold PbfSpec.fPacked
+  by_cases hc : (vs.isEmpty && od) = true
+  · simp only [hc, ↓reduceIte, spec_decodeMsg_nil]
+    have : vs.isEmpty = true := by simp at hc; simp [hc.1]
+    rw [spec_pack_nil_of_isEmpty vs this]
+    cases s; simp_all
+  · simp only [hc, Bool.false_eq_true, ↓reduceIte, spec_decodeMsg_single, spec_fBytes]
+    simp [relationStep, fBytes]
+
+/-! ### DELTA coding of the spec against `DeltaDecode<int64_t>` -/
+
+theorem spec_rel_dec_delta : ∀ (xs : List Int) (p : Int), (∀ x ∈ xs, IdOk x) →
+    Delta.decGo p (PbfSpec.delta p xs) = xs
+  | [], _, _ => rfl
+  | x :: xs, p, h => by
+    have hx := h x List.mem_cons_self
+    have e : p + (x - p) = x := by omega
+    simp only [PbfSpec.delta, Delta.decGo, e, Delta.swrap64_id x hx.1 hx.2]
+    rw [spec_rel_dec_delta xs x (fun y hy => h y (List.mem_cons_of_mem _ hy))]
+
+theorem spec_rel_delta_range : ∀ (xs : List Int) (p : Int), DeltaRep p xs → ∀ d ∈ PbfSpec.delta p xs, IdOk d
+  | [], _, _ => by simp [PbfSpec.delta]
+  | x :: xs, p, h => by
+    intro d hd
+    simp only [PbfSpec.delta, List.mem_cons] at hd
+    rcases hd with rfl | hd
+    · exact h.1
+    · exact spec_rel_delta_range xs x h.2 d hd
+
+/-- the packed member ids: unpack, un-zigzag, delta-decode -/
+theorem spec_rel_refs (xs : List Int) (hx : ∀ x ∈ xs, IdOk x) (hd : DeltaRep 0 xs) :
+    unpack (pack ((PbfSpec.delta 0 xs).map zigzag64)) = some ((PbfSpec.delta 0 xs).map zigzag64) ∧
+    Delta.dec (((PbfSpec.delta 0 xs).map zigzag64).map unzigzag64) = xs := by
+  constructor
+  · apply unpack_pack
+    intro v hv
+    obtain ⟨d, hd', rfl⟩ := List.mem_map.mp hv
+    have := spec_rel_delta_range xs 0 hd d hd'
+    exact zigzag_lt d this.1 this.2
+  · rw [List.map_map]
+    have : (unzigzag64 ∘ zigzag64) = id := by funext x; simp [unzigzag_zigzag]
+    rw [this, List.map_id]
+    exact spec_rel_dec_delta xs 0 hx
+
+/-! ### members -/
+
+theorem spec_rel_buildMembers (table : List Bytes) (p : Params) (hps : p.strings = table) : ∀ (ms : List Member),
+    (∀ x ∈ ms, TableOk table x.role) → RelInDomain ms →
+    buildMembers p (ms.map fun x => PbfSpec.idx table x.role) (ms.map (·.ref)) (ms.map fun x => x.type - 1) = some ms
+  | [], _, _ => rfl
+  | x :: ms, ht, hd => by
+    have ih := spec_rel_buildMembers table p hps ms (fun y hy => ht y (List.mem_cons_of_mem _ hy))
+      (fun y hy => hd y (List.mem_cons_of_mem _ hy))
+    obtain ⟨_, h2, h3⟩ := ht x List.mem_cons_self
+    obtain ⟨_, t1, t3⟩ := hd x List.mem_cons_self
+    have e1 : toInt32 (PbfSpec.idx table x.role) = (PbfSpec.idx table x.role : Int) := toInt32_small _ h2
+    have e2 : toInt32 (x.type - 1) = ((x.type - 1 : Nat) : Int) :=
+      toInt32_small _ (by simp only [Nat.reducePow]; omega)
+    have c1 : ¬ (((x.type - 1 : Nat) : Int) < 0) := by omega
+    have c2 : ¬ (((x.type - 1 : Nat) : Int) > 2) := by omega
+    have c3 : ((x.type - 1 : Nat) : Int).toNat + 1 = x.type := by omega
+    simp only [List.map_cons, buildMembers, e1, lookup_nat, hps, h3, e2, c1, c2, c3, ih, bind, Option.bind, pure,
+      Bool.or_self, Bool.false_eq_true, ↓reduceIte, decide_false]
+
+/-! ### the message -/
+
+/-- the decoder loop over the canonical field list -/
+theorem spec_rel_state (ch : Choices) (hch : ChoicesOk ch) (table : List Bytes) (hist : Bool) (m : Meta) (ms : List Member)
+    (hmd : MetaInDomain m) (hid : IdOk m.id) (hts : StampRep ch m.timestamp) (hu : TableOk table m.user) :
+    decodeMsg (relationStep (specParams ch table) {}) {} (spec_rel_fields ch table hist m ms) =
+      some { id := m.id,
+             keys := pack (m.tags.map fun t => PbfSpec.idx table t.key),
+             vals := pack (m.tags.map fun t => PbfSpec.idx table t.value),
+             info := infoOf m, user := m.user,
+             a := pack (ms.map fun x => PbfSpec.idx table x.role),
+             b := pack ((PbfSpec.delta 0 (ms.map (·.ref))).map zigzag64),
+             c := pack (ms.map fun x => x.type - 1) } := by
+  unfold spec_rel_fields
+  simp only [decodeMsg_append]
+  have h0 : decodeMsg (relationStep (specParams ch table) {}) {} [PbfSpec.fInt 1 m.id] = some { id := m.id } := by
+    rw [spec_decodeMsg_single, spec_fInt]
+    simp [relationStep, fVarint, toInt64_u64 m.id hid]
+  have hstep : decodeMsg (relationStep (specParams ch table) {}) { id := m.id } (PbfSpec.metaFields ch table hist m) =
+      decodeMsg (metaStep (specParams ch table) {}) { id := m.id } (PbfSpec.metaFields ch table hist m) :=
+    decodeMsg_congr_step _ _ _ _ (fun f hf s => relationStep_ld_meta _ _ s f (by
+      obtain ⟨hw, ht, _⟩ := spec_metaFields_shape ch table hist m f hf
+      exact ⟨hw, ht⟩))
+  rw [h0, Option.bind_some, hstep,
+    spec_meta ch hch table hist m (specParams ch table) rfl rfl hmd hts hu { id := m.id } ⟨rfl, rfl, rfl, rfl⟩,
+    Option.bind_some, spec_rel_a _ _ _ _ _ rfl, Option.bind_some, spec_rel_b _ _ _ _ _ rfl, Option.bind_some,
+    spec_rel_c _ _ _ _ _ rfl]
+
 theorem spec_relation (ch : Choices) (hch : ChoicesOk ch) (table : List Bytes) (hist : Bool) (m : Meta) (ms : List Member)
     (hrep : ObjRep ch (.relation m ms)) (htab : ∀ s ∈ PbfSpec.stringsOf (.relation m ms), TableOk table s)
     (hlen : (PbfSpec.relationMsg ch table hist m ms).length < 2 ^ 32) :
     withFields (PbfSpec.relationMsg ch table hist m ms) (decodeRelation (specParams ch table) {}) = some (.relation m ms) := by
-  sorry
+  obtain ⟨⟨hmd, hid, hts, _⟩, hdom, hdel, _⟩ := hrep
+  have hu : TableOk table m.user := htab _ (by simp [PbfSpec.stringsOf])
+  have htags : ∀ t ∈ m.tags, TableOk table t.key ∧ TableOk table t.value := by
+    intro t ht
+    constructor
+    · apply htab
+      simp only [PbfSpec.stringsOf, List.mem_append, List.mem_cons, List.mem_flatMap]
+      exact Or.inl (Or.inr ⟨t, ht, by simp⟩)
+    · apply htab
+      simp only [PbfSpec.stringsOf, List.mem_append, List.mem_cons, List.mem_flatMap]
+      exact Or.inl (Or.inr ⟨t, ht, by simp⟩)
+  have hroles : ∀ x ∈ ms, TableOk table x.role := by
+    intro x hx
+    apply htab
+    simp only [PbfSpec.stringsOf, List.mem_append, List.mem_map]
+    exact Or.inr ⟨x, hx, rfl⟩
+  have hwf := spec_rel_fields_wf ch table hist m ms hlen
+  unfold withFields
+  rw [spec_rel_msg_eq, readFields_msg ch _ _ hwf (hch.extrasWF PbfSpec.kRelation)]
+  simp only
+  unfold decodeRelation
+  rw [decodeMsg_arrange' (relationStep (specParams ch table) {}) wayKnown (relationStep_unknown _ _)
+    (spec_rel_commutes _ _) ch PbfSpec.kRelation _ _ (hch.extrasUnknown PbfSpec.kRelation)]
+  rw [spec_rel_state ch hch table hist m ms hmd hid hts hu]
+  have hA : unpack (pack (ms.map fun x => PbfSpec.idx table x.role)) = some (ms.map fun x => PbfSpec.idx table x.role) :=
+    unpack_pack _ (fun v hv => by
+      obtain ⟨x, hx, rfl⟩ := List.mem_map.mp hv
+      have := (hroles x hx).2.1
+      simp only [Nat.reducePow] at *; omega)
+  have hC : unpack (pack (ms.map fun x => x.type - 1)) = some (ms.map fun x => x.type - 1) :=
+    unpack_pack _ (fun v hv => by
+      obtain ⟨x, hx, rfl⟩ := List.mem_map.mp hv
+      have := (hdom x hx).2.2
+      simp only [Nat.reducePow] at *; omega)
+  have ir : ∀ x ∈ ms.map (·.ref), IdOk x := fun x hx => by
+    obtain ⟨n, hn', rfl⟩ := List.mem_map.mp hx; exact (hdom n hn').1
+  obtain ⟨hB, hB'⟩ := spec_rel_refs (ms.map (·.ref)) ir hdel
+  have hmem := spec_rel_buildMembers table (specParams ch table) rfl ms hroles hdom
+  have hft := spec_finishTags table (specParams ch table) rfl m
+    { id := m.id,
+      keys := pack (m.tags.map fun t => PbfSpec.idx table t.key),
+      vals := pack (m.tags.map fun t => PbfSpec.idx table t.value),
+      info := infoOf m, user := m.user,
+      a := pack (ms.map fun x => PbfSpec.idx table x.role),
+      b := pack ((PbfSpec.delta 0 (ms.map (·.ref))).map zigzag64),
+      c := pack (ms.map fun x => x.type - 1) } rfl rfl htags
+  simp only [bind, Option.bind, pure, hA, hB, hB', hC, hmem, hft]
+  simp [mkMeta, infoOf]
 
 end Osmium.Pbf
